@@ -93,6 +93,8 @@ func c12Judge(s string) (string, string) {
 		// copied in order from s (a glued comma may have been percent-encoded)
 		u := c.URL
 		vars := []string{u}
+		u = strings.Replace(u, "%2C", "%2c", -1) // the escape's hex case is not part of the statement
+		vars = []string{c.URL, u}
 		if strings.HasPrefix(u, "%2c") {
 			vars = append(vars, ","+u[3:])
 		}
@@ -125,6 +127,10 @@ func checkC12(r *core.Run) {
 	var evals, nontriv int64
 	eval := func(s string) {
 		atomic.AddInt64(&evals, 1)
+		if p, msg := core.Try(func() { safehtml.URLSetSanitized(s) }); p {
+			r.Witness("panic", "", s, fmt.Sprintf("URLSetSanitized(%s) panicked: %s", core.Q(s), msg), map[string]string{"Input": s})
+			return
+		}
 		out := safehtml.URLSetSanitized(s).String()
 		if out != s {
 			atomic.AddInt64(&nontriv, 1)
@@ -151,6 +157,8 @@ func checkC12(r *core.Run) {
 		eval("javascript:x" + s + "2x")
 	})
 	r.Set("layer_bytes", fmt.Sprintf("all byte strings length<=%d alone and in 3 candidate contexts: %d", bl, st2.States*4))
+	nl := enum.Long([]string{"a", "x", "\u00e9", "\u212a", "\u0130", "\u023a", "\xff", "%6a", " ", ","}, []string{" , javascript:alert(1)", "javascript:alert(1) 2x", " 1x, javascript:x", ":b 1x", "&colon;alert(1) 2x", "/ok.png 1x", ", /b 2x ,", "_a:b"}, 300, func(s string) { eval(s) })
+	r.Set("layer_long", fmt.Sprintf("10 padding units x 8 cores x every padding length 0..300 x 3 placements: %d", nl))
 	r.Set("evaluations", evals)
 	r.Set("distinct_nontrivial", nontriv)
 	r.Set("rule", "exhaustive enumeration per layer; non-trivial = URLSetSanitized(s) != s (a candidate was dropped, a comma encoded or separators rewritten)")
